@@ -90,7 +90,7 @@ func c14BidiClients() []c14Client {
 		ops := strings.Fields(s)
 		c := c14Client{name: strings.ReplaceAll(s, " ", ","), ops: ops}
 		for _, o := range ops {
-			if o == "X" {
+			if o == "X" || o == "X0" {
 				c.cancels = true
 			}
 			if o == "Sfill" {
@@ -113,6 +113,10 @@ func c14BidiClients() []c14Client {
 		// after the round trip the cancellation lands between the arrival of the
 		// response and the point where the library starts watching the context
 		mk("S P10 X CP"), mk("S P10 X Rall CR CP"),
+		// cancelled before anything was sent, and nothing is ever sent
+		mk("X CR Rall CP"), mk("X CR CP"),
+		// the context was done before the stream was even created
+		mk("X0 CR Rall CP"), mk("X0 CR CP"), mk("X0 S CR Rall CP"),
 	}
 }
 
@@ -165,7 +169,7 @@ func c14Compatible(cl c14Client, h c14Handler) bool {
 	}
 	firstX := -1
 	for i, o := range cl.ops {
-		if o == "X" && firstX < 0 {
+		if (o == "X" || o == "X0") && firstX < 0 {
 			firstX = i
 		}
 	}
@@ -358,6 +362,7 @@ func c14(run *ev.Run) int {
 	}
 	c14ReadLimit(run, srv)
 	c14DoFails(run)
+	c14HandlerReadLimit(run)
 	run.Set("distinct_interleaving_signatures", len(signatures))
 	run.Count("interleaving.signatures", int64(len(signatures)))
 	serverPanicCheck(run, srv, "c14")
@@ -844,4 +849,75 @@ func c14DoFails(run *ev.Run) {
 		}
 	}
 	c14Census(run, "c14/do-fails/census", keys)
+}
+
+// c14HandlerReadLimit: the read limit is on the handler. A bidi client sends a
+// message above it and then waits for the answer with its request side still
+// open (it has more to say, depending on the answer). The handler's Receive
+// rejects the message; rejecting it must not wait for the client to finish the
+// request stream, or both sides wait for each other.
+func c14HandlerReadLimit(run *ev.Run) {
+	srv := svc.NewServer(connect.WithReadMaxBytes(100))
+	defer srv.Close()
+	type rl struct {
+		ops     []string
+		handler string
+		build   func() *svc.Program
+	}
+	families := []rl{
+		{[]string{"Sbig", "R", "CR", "CP"}, "recv1-return-its-error", func() *svc.Program {
+			return &svc.Program{ReturnFirstRecvErr: true, Steps: []svc.Step{{Op: "recv"}}}
+		}},
+		{[]string{"S", "Sbig", "R", "CR", "Rall", "CP"}, "recv2-send1-drain-ok", func() *svc.Program {
+			return &svc.Program{Steps: []svc.Step{{Op: "recv"}, {Op: "recv"}, {Op: "send", Msg: gen.New(992, 10, true)}, {Op: "recvall"}}}
+		}},
+	}
+	var wg sync.WaitGroup
+	for _, p := range svc.Protocols {
+		for _, f := range families {
+			key := fmt.Sprintf("c14/handler-readlimit/h2=true/%s/bidi/client=%s/handler=%s", p, strings.Join(f.ops, ","), f.handler)
+			if !run.Want(key) {
+				continue
+			}
+			wg.Add(1)
+			go func(p string, f rl, key string) {
+				defer wg.Done()
+				call := srv.Reg.New("c14hrl", f.build())
+				defer srv.Reg.Drop(call)
+				cs := srv.Clients(true, svc.ProtoOpts(p, "proto")...)
+				defer cs.Tap.Forget(call.ID)
+				ctx, cancel := context.WithCancel(context.Background())
+				sd := &scripted{cs: cs, kind: svc.Bidi, callID: call.ID, ctx: ctx, cancel: cancel, timeout: 15 * time.Second, handlerDone: call.Log.Finished}
+				cr := sd.run(f.ops)
+				if cr.Slow {
+					cancel()
+					call.ReleaseNow()
+					return
+				}
+				if cr.Hung {
+					defer cancel()
+				} else {
+					c14KeepAlive(cancel)
+				}
+				run.Count("cases", 1)
+				run.Count("readlimit.handler_cases", 1)
+				run.Eval(fmt.Sprintf("handler-readlimit|%s|%s", p, f.handler))
+				detail := map[string]any{"case": key, "handler_read_limit": 100, "ops": describeOps(cr)}
+				for _, o := range cr.Ops {
+					run.Count("ops.returned", 1)
+					if !o.Returned {
+						detail["goroutines"] = trunc(o.Dump, 20000)
+						run.Violation(key+"/hang", fmt.Sprintf("client operation %s did not return within 15 s (the handler was rejecting an over-limit message while the client waited for its answer)", o.Op), detail)
+						cancel()
+						call.ReleaseNow()
+						return
+					}
+				}
+				if fin, _ := waitHandler(call, 5*time.Second); !fin {
+					run.Violation(key+"/handler", "the handler did not finish within 5 s of the client closing both sides", detail)
+				}
+			}(p, f, key)
+		}
+	}
+	wg.Wait()
 }
